@@ -24,7 +24,11 @@ func corpus() []*Case {
 	var l []*Case
 	add := func(name string, store, v4, raw *Config) {
 		store.Groups = append(store.Groups, ext...)
-		l = append(l, &Case{Stream: "corpus:" + name, Store: store, V4: v4, Raw: raw, Mode: "http"})
+		expect := "accept"
+		if name == "raw-policy-without-prefix" {
+			expect = "reject:Must only define policy where name has prefix 'Netspoc': my-policy"
+		}
+		l = append(l, &Case{Stream: "corpus:" + name, Store: store, V4: v4, Raw: raw, Mode: "http", Expect: expect})
 	}
 	// nsx.t "Replace one group by two different groups"
 	add("replace-one-group-by-two",
@@ -110,6 +114,7 @@ func corpus() []*Case {
 			IPProto: "IPV4", Service: "ANY", Src: "ANY", Dst: "10.9.9.9"}}}}})
 	// raw policy whose id contains the prefix, but not at the start; the manager has its own policy of that name
 	l = append(l, &Case{Stream: "corpus:raw-policy-prefix-inside", Mode: "http",
+		Expect: "reject:Must only define policy where name has prefix 'Netspoc': Customer-Netspoc-dmz",
 		Store: &Config{Groups: []Group{grp("raw-g1", "10.7.7.7")}, Policies: []Policy{{"Customer-Netspoc-dmz", []Rule{{Id: "own1",
 			Direction: "IN_OUT", Action: "ALLOW", Seq: 1, Scope: []string{"/infra/tier-0s/v1"}, Service: "ANY", Src: gpath("raw-g1"), Dst: "10.2.1.10"}}}}},
 		V4: &Config{},
